@@ -286,8 +286,19 @@ pub fn digest(fs: &[Option<&Fitted>]) -> u64 {
     h
 }
 
-/// Ordinary least squares: both solvers, all clauses. Returns true when the case is non-trivial.
-pub fn check_ols(cx: &Ctx) -> bool {
+/// What the library returned, for the case description: (solver, coefficients, intercept) per successful fit.
+pub struct Observed {
+    pub nontrivial: bool,
+    pub models: Vec<(&'static str, Vec<f64>, f64)>,
+}
+
+fn observed(model: Model, ok: &[Option<&Fitted>; 2]) -> Observed {
+    let models: Vec<_> = [Solver::Direct, Solver::Svd].iter().zip(ok).filter_map(|(s, f)| f.map(|f| (solver_name(model, *s), f.w.clone(), f.b))).collect();
+    Observed { nontrivial: models.iter().any(|(_, w, b)| w.iter().any(|v| *v != 0.0) || *b != 0.0), models }
+}
+
+/// Ordinary least squares: both solvers, all clauses.
+pub fn check_ols(cx: &Ctx) -> Observed {
     let xi = cx.xi;
     let (n, p, eps) = (xi.n as f64, xi.p, xi.w.eps());
     let fits = fit_both(xi, cx.y, Model::Ols);
@@ -356,11 +367,11 @@ pub fn check_ols(cx: &Ctx) -> bool {
         }
     }
     mc::outcome(digest(&ok));
-    ok.iter().any(|f| f.map(|f| f.w.iter().any(|v| *v != 0.0) || f.b != 0.0).unwrap_or(false))
+    observed(Model::Ols, &ok)
 }
 
 /// Ridge regression with one (alpha, normalize): both solvers, all clauses.
-pub fn check_ridge(cx: &Ctx, alpha_nominal: f64, normalize: bool) -> bool {
+pub fn check_ridge(cx: &Ctx, alpha_nominal: f64, normalize: bool) -> Observed {
     let xi = cx.xi;
     let (n, p, eps) = (xi.n as f64, xi.p, xi.w.eps());
     let alpha = xi.w.round(alpha_nominal);
@@ -496,5 +507,5 @@ pub fn check_ridge(cx: &Ctx, alpha_nominal: f64, normalize: bool) -> bool {
         }
     }
     mc::outcome(digest(&ok));
-    ok.iter().any(|f| f.map(|f| f.w.iter().any(|v| *v != 0.0) || f.b != 0.0).unwrap_or(false))
+    observed(model, &ok)
 }
